@@ -10,11 +10,19 @@ theorems give explicit fuel bounds (functions of the node vector only) above whi
 is never returned, and show that the result no longer depends on the fuel from there on.
 `NP r` abbreviates `r ≠ .error .panic`.
 
-* `pcfBound S   = 2 * S.size * (maxWidth S + 1) + 1`: along a chain of nested calls each call
-  writes a named node not yet in `written` or pushes an unnamed key not yet on `onPath`
-  (≤ `2 * S.size` of those), and a list traversal spends one unit per element.  (The *number of
-  steps* can be exponential with shared unnamed nodes; fuel bounds depth and width only, sibling
-  calls reuse it.)
+* `pcfBound S   = S.size * (S.size + 1) * (maxWidth S + 1) + 1` (the same as `renderBound S`):
+  the generation guard of the canonical-form writer.  `onPath` maps an unnamed key being written
+  to the generation (`written.length + 1`) at which it was entered; meeting it again is an error
+  only in that same generation, otherwise it is entered again.  Potential `pcfMeasure`:
+  `Σ_{j < S.size}` of `[j ∉ written]` for a named node `j`, and of
+  `free + 1 - [cell j = generation]` for any other `j`, where `free` is the number of indices
+  `< S.size` not in `written` (≥ the number of generations still to come).  Writing a named node
+  not yet in `written` uses up its own term and lowers `free`; entering an unnamed key needs
+  `cell ≠ generation` and sets `cell := generation`; restoring the cell after the body does not
+  bring the potential above its value before the entry since `written` only grows.  The
+  potential is at most `S.size * (S.size + 1)` in *every* state, and a list traversal spends one
+  unit per element.  (The *number of steps* can be exponential with shared unnamed nodes; fuel
+  bounds depth and width only, sibling calls reuse it.)
 * `renderBound S = S.size * (S.size + 1) * (maxWidth S + 1) + 1`: the generation-counter guard.
   Potential `Σ_{j < S.size} (S.size + 2 - max (cell j + 1) nWritten)`: entering an unnamed key
   needs `cell < nWritten` and sets `cell := nWritten`; writing a named key sets its cell and
@@ -79,11 +87,82 @@ theorem C19_pcf_stable (S : SchemaMut) (fuel : Nat) (h : pcfBound S ≤ fuel) :
   unfold canonicalForm
   rw [C19_pcf_fuel_mono_le S (pcfBound S) fuel 0 {} (pcf_total S _ (Nat.le_refl _) 0) h]
 
-/-- The general form: from any state, with the explicit measure (indices `< S.size` not yet in
-    `written`, plus those not on `onPath`). -/
+/-- The general form: from any state, with the explicit potential `pcfMeasure` of the generation
+    guard (see the header; no invariant on the state is needed). -/
 theorem C19_pcf_total_state (S : SchemaMut) (fuel key : Nat) (st : PcfState)
     (h : pcfMeasure S st * (maxWidth S + 1) + 1 ≤ fuel) : pcf S fuel key st ≠ .error .panic :=
   (pcf_total_aux S fuel).1 key st _ (Nat.le_refl _) h
+
+/-- … in particular `pcfBound S` suffices from every state, not only the initial one. -/
+theorem C19_pcf_total_any_state (S : SchemaMut) (fuel key : Nat) (st : PcfState)
+    (h : pcfBound S ≤ fuel) : pcf S fuel key st ≠ .error .panic :=
+  pcf_total_st S fuel h key st
+
+/-- The only errors of the canonical-form writer are `custom` ones. -/
+theorem C19_pcf_errors (S : SchemaMut) (fuel : Nat) (h : pcfBound S ≤ fuel) (e : SchemaErr)
+    (he : canonicalForm S fuel = .error e) : e = .custom := by
+  have hnp := C19_pcf_total S fuel h
+  unfold canonicalForm at he hnp
+  cases hr : pcf S fuel 0 {} with
+  | error e' =>
+    rw [hr] at he hnp
+    cases he
+    rcases (pcf_cop_aux S fuel).1 0 {} e hr with rfl | rfl
+    · rfl
+    · exact absurd rfl hnp
+  | ok p => rw [hr] at he; cases he
+
+/-! ### 7b. the generation guard of the canonical form: what is refused, what is not -/
+
+/-- `enter_unnamed`: if `pcf` is (re-)entered on an array/map/union key whose cell holds the
+    current generation (no named type was written since the node was entered), it fails. -/
+theorem C19_pcf_reenter (S : SchemaMut) (fuel k : Nat) (st : PcfState)
+    (hu : isUnnamedKey S k = true) (hg : st.cell k = st.gen) :
+    pcf S (fuel + 1) k st = .error .custom :=
+  pcf_reenter S fuel k st hu hg
+
+/-- Direct cases, every fuel ≥ 3: an array / map / union that is its own child, and the two-node
+    cycle array → map → array. -/
+theorem C19_pcf_unnamed_cycle_err (fuel : Nat) (h : 3 ≤ fuel) :
+    canonicalForm #[⟨.array 0, none⟩] fuel = .error .custom ∧
+    canonicalForm #[⟨.map 0, none⟩] fuel = .error .custom ∧
+    canonicalForm #[⟨.union [0], none⟩] fuel = .error .custom ∧
+    canonicalForm #[⟨.array 1, none⟩, ⟨.map 0, none⟩] fuel = .error .custom := by
+  obtain ⟨n, rfl⟩ : ∃ n, fuel = n + 3 := ⟨fuel - 3, by omega⟩
+  refine ⟨?_, ?_, ?_, ?_⟩ <;>
+    simp [canonicalForm, pcf_succ, pcfStep, pcfUnnamed, mapOk, andThen, pcfList_cons, List.lookup]
+
+/-- General statement: if the root belongs to a set of keys in which every member is an array,
+    map or union with a child in the set (a cycle through unnamed nodes only, or a path into
+    one), there is no canonical form: an error — for every sufficient fuel. -/
+theorem C19_pcf_unnamed_cycle_err_general (S : SchemaMut) (C : Nat → Prop)
+    (hC : UnnamedClosed S C) (h0 : C 0) (fuel : Nat) (hf : pcfBound S ≤ fuel) :
+    canonicalForm S fuel = .error .custom := by
+  cases hr : canonicalForm S fuel with
+  | error e => rw [C19_pcf_errors S fuel hf e hr]
+  | ok text =>
+    unfold canonicalForm at hr
+    cases hp : pcf S fuel 0 {} with
+    | error e => rw [hp] at hr; cases hr
+    | ok st => exact absurd hp (pcf_unnamed_cycle_not_ok S C hC fuel 0 {} st h0)
+
+/-- … and it never succeeds, whatever the fuel. -/
+theorem C19_pcf_unnamed_cycle_never_ok (S : SchemaMut) (C : Nat → Prop) (hC : UnnamedClosed S C)
+    (h0 : C 0) (fuel : Nat) (text : String) : canonicalForm S fuel ≠ .ok text := by
+  unfold canonicalForm
+  cases hp : pcf S fuel 0 {} with
+  | error e => intro h; cases h
+  | ok st => exact absurd hp (pcf_unnamed_cycle_not_ok S C hC fuel 0 {} st h0)
+
+/-- A cycle that goes through a named type is **not** refused: the array is met again while
+    being written, but the record `R` was written in between, so the array is entered again and
+    `R` is then written by reference. -/
+theorem C19_pcf_cycle_through_named_ok (fuel : Nat) (h : 5 ≤ fuel) :
+    canonicalForm #[⟨.array 1, none⟩, ⟨.record ⟨"R", "R", none⟩ [("f", 0)], none⟩] fuel =
+      .ok "{\"type\":\"array\",\"items\":{\"name\":\"R\",\"type\":\"record\",\"fields\":[{\"name\":\"f\",\"type\":{\"type\":\"array\",\"items\":\"R\"}}]}}" := by
+  obtain ⟨n, rfl⟩ : ∃ n, fuel = n + 5 := ⟨fuel - 5, by omega⟩
+  simp [canonicalForm, pcf_succ, pcfStep, pcfUnnamed, pcfNamed, mapOk, andThen, pcfFields_cons,
+    pcfFields_nil, List.lookup]
 
 /-! ### 8. JSON regeneration is total -/
 
